@@ -14,6 +14,7 @@ def reg(*hs):
 
 
 FMT = "alloc::fmt::format -> String::new() (message text is never part of a property)"
+WCAP0 = "Vec::with_capacity / Vec::reserve -> allocation-bounding stubs (panic on capacity overflow like the real ones, assert n <= 8, allocate concrete capacity)"
 TOVEC = "<[T]>::to_vec -> bounded copy into a concrete-capacity Vec (asserts len <= 8)"
 
 # ---------------------------------------------------------------------------------------------
@@ -26,6 +27,70 @@ reg(
       bounds="slot = 4096 symbolic bytes; id_len <= 4 or > 1024 (ids of 5..1024 bytes outside)",
       functions=["rawdb::RegionMetadata::from_bytes", "String::from_utf8"],
       stubs=[FMT, TOVEC], assumes=["id_len <= 4 || id_len > 1024"]),
+)
+reg(
+    H("c17_num_", "vecdb", "C17", group=True, mem=6, timeout=1500, memsafe=True,
+      desc="Bytes for u8..u128, i8..i128, usize, isize, f32, f64: from_bytes(to_bytes(x)) is bit-exact for every bit pattern (floats as bits, all NaN payloads); any slice whose length differs from size_of is rejected without panic",
+      bounds="all 2^w values per type (w = 8..128); input slices of 0..17 arbitrary bytes", functions=["vecdb::Bytes for numeric types (bytes/numeric.rs)"], stubs=[FMT]),
+    H("c17_arr_", "vecdb", "C17", group=True, mem=6, timeout=900, memsafe=True,
+      desc="Bytes for [u8; N], N in {1,3,33,65}: round trip at a symbolic position; wrong length rejected",
+      bounds="N in {1,3,33,65}; arbitrary contents", functions=["vecdb::Bytes for [u8; N] (bytes/array.rs)"], stubs=[FMT]),
+    H("c17_page_format_stamp_version", "vecdb", "C17", mem=6, timeout=600, memsafe=True,
+      desc="Page (raw/compressed constructors, raw flag, 16-byte codec), Format (exactly tags 0,1,64,65,66 decode, each to itself), Stamp, Version: round trips for all field values; truncated or arbitrary bytes give Err or the echoed value, never a panic",
+      bounds="all field values (u64/u32/u32 with values < 2^31); inputs of 0..17 arbitrary bytes", functions=["vecdb::Page::{raw,compressed,is_raw,values_count,to_bytes,from_bytes}", "vecdb::Format::{to_bytes,from_bytes}", "Stamp/Version Bytes"], stubs=[FMT]),
+    H("c17_header_roundtrip_and_garbage", "vecdb", "C17", mem=6, timeout=600, memsafe=True,
+      desc="HeaderInner: from_bytes(to_bytes(h)) = h for all versions/stamps/formats; arbitrary bytes of length 0..HEADER_OFFSET+1 give Err or a header echoing the bytes with a valid format tag",
+      bounds="all field values; inputs 0..33 arbitrary bytes", functions=["vecdb::HeaderInner::{to_bytes,from_bytes}"], stubs=[FMT]),
+    H("c17_change_cursor_bounds", "vecdb", "C17", mem=6, timeout=600, memsafe=True,
+      desc="ChangeCursor::{skip,read_values}: symbolic 64-bit counts and element sizes never overflow or read past the input (checked_mul / checked_add guard every read)",
+      bounds="input 0..24 arbitrary bytes; count any usize; element size in {4,8,16,usize::MAX/2}", functions=["vecdb::ChangeCursor::{skip,read_values,check_remaining}"], stubs=[FMT, WCAP0]),
+    H("c16_parse_change_data_any_bytes", "vecdb", "C17", mem=8, timeout=900, memsafe=True,
+      desc="parse_change_data on an arbitrary byte string: Err(WrongLength|Overflow|Underflow) or a ChangeData whose vectors fit inside the input and echo its fields; no panic, allocation bounded by the input",
+      bounds="record = 0..56 arbitrary bytes (truncation at every offset and arbitrary length fields included); element size 4", functions=["vecdb::ReadWriteBaseVec::parse_change_data", "vecdb::ChangeCursor"], stubs=[FMT, WCAP0]),
+)
+
+
+# ---------------------------------------------------------------------------------------------
+# C02 Level 1: real Layout operations over the model maps, arbitrary INV layout (tiling)
+# ---------------------------------------------------------------------------------------------
+L1B = ("arbitrary INV layout of a concrete *shape* (sequence of 2-5 consecutive extents: region / promoted hole / "
+       "pending hole / reservation) with symbolic sizes 1..3|4|8 pages and symbolic region lengths; model map "
+       "capacity 4; one symbolic byte address w (pointwise oracle, universally quantified); symbolic choice of "
+       "the operated region/hole among those of the shape")
+for (n, d, f, shapes) in [
+    ("c02_l1_last_", "Layout::len() = end of the allocated area whichever kind of extent is last; is_last_anything(r) <=> r's extent is the last extent (no hole, pending hole or reservation behind it)",
+     ["rawdb::Layout::len", "rawdb::Layout::is_last_anything"], "RP RS RH HR RR PRS RHP RPR SHR"),
+    ("c02_l1_find_", "find_smallest_adequate_hole(min) = start of a smallest promoted hole with size >= min, None iff none (pending holes and reservations are never offered)",
+     ["rawdb::Layout::find_smallest_adequate_hole"], "HRHR RHPH HRHRH RPR"),
+    ("c02_l1_compress_", "remove_or_compress_hole(start, by): first `by` bytes leave the free index, remainder stays one hole, every other byte keeps its classification; too small => Err",
+     ["rawdb::Layout::remove_or_compress_hole", "rawdb::Layout::{insert_hole,remove_hole}"], "RHRH HPHR HRHRH"),
+    ("c02_l1_remove_", "remove_region: the region's reserved extent becomes a pending (not yet reusable) hole; nothing else changes; best-fit search never returns it; len() unchanged",
+     ["rawdb::Layout::remove_region"], "RHRP HRRH RRS PRH"),
+    ("c02_l1_promote_", "promote_pending_holes: pending -> promoted, coalesced with both neighbours into a maximal free extent; no byte changes between free and used; no promoted hole overlaps a live region; no two promoted holes adjacent; hole index stays the exact inverse",
+     ["rawdb::Layout::promote_pending_holes"], "HPRH HPHR RPHR RPRP PPRH HPPH RHPR HRPH HPRHR RR"),
+    ("c02_l1_move_", "reserve(end) + move_region + take_reserved: old extent becomes pending, region keyed at the reserved target, reservation consumed, len() accounts for the reservation",
+     ["rawdb::Layout::{reserve,take_reserved,move_region,insert_region}"], "RHR RRPH HR"),
+]:
+    reg(H(n, "rawdb", "C02", mem=8, timeout=600, group=True, desc=d + " [shapes: " + shapes + "]",
+          bounds=L1B, functions=f, stubs=[FMT]))
+
+
+# ---------------------------------------------------------------------------------------------
+# C15 lazy vectors
+# ---------------------------------------------------------------------------------------------
+WCAP = "Vec::with_capacity / Vec::reserve -> allocation-bounding stubs (assert n <= 8, allocate concrete capacity)"
+C15B = "sources = in-memory mock ReadableVecs with symbolic contents and symbolic (unequal) lengths <= 3; symbolic (from,to) incl. reversed, out of bounds, usize::MAX; symbolic probe index"
+reg(
+    H("c15_from2_range_reads", "vecdb", "C15", mem=8, timeout=900,
+      desc="LazyVecFrom2: len = min of governing sources; collect_range/fold/try_fold/for_each_range_dyn/collect_one return exactly compute(i, s1[i], s2[i]) for the clamped range",
+      bounds=C15B, functions=["vecdb::LazyVecFrom2 as ReadableVec (read_into_at, for_each_range_dyn_at, fold_range_at, try_fold_range_at, collect_one_at)", "vecdb::ReadableVec default methods"], stubs=[WCAP]),
+    H("c15_from1_from3_reads", "vecdb", "C15", mem=8, timeout=900,
+      desc="LazyVecFrom1 and LazyVecFrom3 (middle source indexed by a foreign index type, not governing): range and point reads equal the formula",
+      bounds=C15B + "; the non-governing source is at least as long as the governing length", functions=["vecdb::LazyVecFrom1", "vecdb::LazyVecFrom3"], stubs=[WCAP],
+      assumes=["non-governing (foreign index) source length >= governing length"]),
+    H("c15_from2_sorted_reads", "vecdb", "C15", mem=8, timeout=900,
+      desc="LazyVecFrom2::read_sorted_at for sorted index pairs incl. duplicates equals the formula per index",
+      bounds=C15B + "; 2 sorted indices", functions=["vecdb::LazyVecFrom2::read_sorted_into_at", "vecdb::Cursor (default read_sorted_into_at of the sources)"], stubs=[WCAP]),
 )
 
 
